@@ -220,6 +220,7 @@ impl Sess {
             }
             ExprRef::Feedback => self.cur_mathml.clone().unwrap_or_else(|| "<math><mi>x</mi></math>".to_string()),
             ExprRef::Lit(s) => s.clone(),
+            ExprRef::Gen { seed, ids } => crate::mml::generate(*seed, crate::mml::id_mode(*ids)),
         }
     }
 
@@ -657,6 +658,20 @@ pub struct RefOut {
 
 static REF_MEMO: OnceLock<Mutex<HashMap<u64, RefOut>>> = OnceLock::new();
 
+/// The expression an ExprRef stands for when that does not depend on the session (everything but Feedback)
+pub fn static_expr(e: &ExprRef) -> Option<String> {
+    match e {
+        ExprRef::Pool(i) => Some(pools::VALID_EXPRS[i % pools::VALID_EXPRS.len()].to_string()),
+        ExprRef::Bad(_) | ExprRef::Feedback => None,
+        ExprRef::Corpus(i) => {
+            let c = pools::corpus();
+            Some(c[i % c.len()].to_string())
+        }
+        ExprRef::Lit(s) => Some(s.clone()),
+        ExprRef::Gen { seed, ids } => Some(crate::mml::generate(*seed, crate::mml::id_mode(*ids))),
+    }
+}
+
 /// Order in which a reference session is given its preferences (see DESIGN 4.3)
 pub fn order_prefs_for_reference(prefs: &[(String, String)]) -> Vec<(String, String)> {
     let mut first = Vec::new();
@@ -848,4 +863,176 @@ pub fn state_hash_of(parts: &[&str]) -> u64 {
 
 pub fn hash_str(s: &str) -> u64 {
     fnv_str(s)
+}
+
+
+/// (debugging aid, not a check) generated expressions through every output and a few navigation commands, in fresh
+/// sessions on 16 threads; prints the distinct panic sites with a count and the first expression that reached each.
+pub fn genscan(from: u64, to: u64) -> i32 {
+    let ctx = match crate::make_ctx(false) {
+        Ok(c) => c,
+        Err(e) => {
+            eprintln!("HARNESS-ERROR: {}", e);
+            return 2;
+        }
+    };
+    let found: Arc<Mutex<std::collections::BTreeMap<String, (usize, String)>>> = Arc::new(Mutex::new(Default::default()));
+    let n_threads = 16u64;
+    let mut handles = Vec::new();
+    for w in 0..n_threads {
+        let ctx = ctx.clone();
+        let found = found.clone();
+        handles.push(
+            std::thread::Builder::new()
+                .stack_size(64 << 20)
+                .spawn(move || {
+                    let cfg = WorldCfg::default();
+                    let fs = SimFs::new(&ctx.base, cfg.start_ms.saturating_sub(86_400_000));
+                    let world = World::from_fs(ctx.base.clone(), fs, &cfg, 1, vec![], &None, false);
+                    let env: Arc<dyn libmathcat::verif_hooks::VerifEnv> = Arc::new(SimEnv { world: world.clone(), session: 0 });
+                    libmathcat::verif_hooks::install(Some(env));
+                    let _ = dispatch(&Op::SetRulesDir(MOUNT_A.into()));
+                    let codes = ["Nemeth", "UEB", "CMU", "Vietnam", "LaTeX", "ASCIIMath", "Swedish"];
+                    let mut seed = from + w;
+                    while seed < to {
+                        let ids = (seed % 3) as u8;
+                        let src = crate::mml::generate(seed, crate::mml::id_mode(ids));
+                        let _ = dispatch(&Op::SetPref("BrailleCode".into(), codes[(seed / 3) as usize % codes.len()].into()));
+                        let _ = dispatch(&Op::SetPref("SpeechStyle".into(), if seed % 2 == 0 { "ClearSpeak" } else { "SimpleSpeak" }.into()));
+                        let mut ops = vec![Op::SetMathml(ExprRef::Lit(src.clone())), Op::Speech, Op::Braille(IdRef::Lit(String::new())), Op::Overview, Op::NavBraille];
+                        for c in ["ZoomIn", "MoveNext", "MoveNext", "ZoomIn", "MovePrevious", "ZoomOutAll", "MoveEnd", "ReadCurrent", "DescribeCurrent", "MoveCellDown", "MoveLineStart", "WhereAmIAll"] {
+                            ops.push(Op::Cmd(c.into()));
+                        }
+                        ops.push(Op::BraillePos);
+                        for k in [0usize, 1, 3, 7, 15] {
+                            ops.push(Op::NodeFromPos(PosRef::Abs(k)));
+                        }
+                        for op in ops {
+                            let r = dispatch(&op);
+                            if let Res::Panic(p, loc) = &r {
+                                let key = format!("{} @ {} :: {}", op.name(), loc, first_line(p, 160));
+                                let mut f = found.lock().unwrap();
+                                let e = f.entry(key).or_insert((0, format!("seed={} ids={} {}", seed, ids, src)));
+                                e.0 += 1;
+                            }
+                            if matches!(op, Op::SetMathml(_)) && !r.is_ok() {
+                                break;
+                            }
+                        }
+                        seed += n_threads;
+                    }
+                    libmathcat::verif_hooks::install(None);
+                })
+                .expect("spawn"),
+        );
+    }
+    for h in handles {
+        let _ = h.join();
+    }
+    let f = found.lock().unwrap();
+    let mut v: Vec<_> = f.iter().collect();
+    v.sort_by_key(|(_, (n, _))| std::cmp::Reverse(*n));
+    for (k, (n, ex)) in &v {
+        println!("{:6}  {}\n        {}", n, k, first_line(ex, 700));
+    }
+    println!("distinct panic signatures: {}", f.len());
+    // one minimised expression per panic location (file:line)
+    let mut by_loc: std::collections::BTreeMap<String, String> = Default::default();
+    for (k, (_, ex)) in &v {
+        let loc = k.split(" :: ").next().unwrap_or("").split(" @ ").nth(1).unwrap_or("").to_string();
+        let src = ex.splitn(3, ' ').nth(2).unwrap_or("").to_string();
+        by_loc.entry(loc).or_insert(src);
+    }
+    let ctx2 = ctx.clone();
+    let h = std::thread::Builder::new()
+        .stack_size(64 << 20)
+        .spawn(move || {
+            let cfg = WorldCfg::default();
+            let fs = SimFs::new(&ctx2.base, cfg.start_ms.saturating_sub(86_400_000));
+            let world = World::from_fs(ctx2.base.clone(), fs, &cfg, 1, vec![], &None, false);
+            let env: Arc<dyn libmathcat::verif_hooks::VerifEnv> = Arc::new(SimEnv { world: world.clone(), session: 0 });
+            libmathcat::verif_hooks::install(Some(env));
+            let _ = dispatch(&Op::SetRulesDir(MOUNT_A.into()));
+            let panics_at = |src: &str, loc: &str| -> bool {
+                for code in ["Nemeth", "UEB"] {
+                    let _ = dispatch(&Op::SetPref("BrailleCode".into(), code.into()));
+                    let ops = [Op::SetMathml(ExprRef::Lit(src.to_string())), Op::Speech, Op::Braille(IdRef::Lit(String::new())), Op::Overview, Op::NavBraille, Op::BraillePos, Op::NodeFromPos(PosRef::Abs(0)), Op::NodeFromPos(PosRef::Abs(1))];
+                    for op in ops {
+                        let r = dispatch(&op);
+                        if let Res::Panic(_, l) = &r {
+                            if l == loc {
+                                return true;
+                            }
+                        }
+                        if matches!(op, Op::SetMathml(_)) && !r.is_ok() {
+                            break;
+                        }
+                    }
+                }
+                false
+            };
+            for (loc, src) in by_loc {
+                let mut best = src.clone();
+                if !panics_at(&best, &loc) {
+                    println!("MIN {} (not reproduced with default preferences)\n    {}", loc, first_line(&best, 400));
+                    continue;
+                }
+                let mut progress = true;
+                while progress {
+                    progress = false;
+                    for cand in crate::mml::reductions(&best) {
+                        if cand.len() < best.len() && panics_at(&cand, &loc) {
+                            best = cand;
+                            progress = true;
+                            break;
+                        }
+                    }
+                }
+                println!("MIN {}\n    {}", loc, best);
+            }
+            libmathcat::verif_hooks::install(None);
+        })
+        .expect("spawn");
+    let _ = h.join();
+    0
+}
+
+
+/// (debugging aid) each argument through set_mathml, speech and braille in one fresh session; "NAME=VALUE" arguments set preferences
+pub fn try_exprs(exprs: &[String]) -> i32 {
+    let ctx = match crate::make_ctx(false) {
+        Ok(c) => c,
+        Err(e) => {
+            eprintln!("HARNESS-ERROR: {}", e);
+            return 2;
+        }
+    };
+    let exprs = exprs.to_vec();
+    let h = std::thread::Builder::new()
+        .stack_size(64 << 20)
+        .spawn(move || {
+            let cfg = WorldCfg::default();
+            let fs = SimFs::new(&ctx.base, cfg.start_ms.saturating_sub(86_400_000));
+            let world = World::from_fs(ctx.base.clone(), fs, &cfg, 1, vec![], &None, false);
+            let env: Arc<dyn libmathcat::verif_hooks::VerifEnv> = Arc::new(SimEnv { world: world.clone(), session: 0 });
+            libmathcat::verif_hooks::install(Some(env));
+            let _ = dispatch(&Op::SetRulesDir(MOUNT_A.into()));
+            for e in exprs {
+                if !e.starts_with('<') {
+                    if let Some((n, v)) = e.split_once('=') {
+                        println!("set_preference({},{}) -> {:?}", n, v, dispatch(&Op::SetPref(n.into(), v.into())));
+                        continue;
+                    }
+                }
+                println!("== {}", e);
+                for op in [Op::SetMathml(ExprRef::Lit(e.clone())), Op::Speech, Op::Braille(IdRef::Lit(String::new())), Op::Overview] {
+                    let r = dispatch(&op);
+                    println!("  {:<18} {}", op.name(), match &r { Res::Ok(v) => format!("Ok {}", normalize_ids(v).replace('\n', "")), Res::Err(e) => format!("Err {}", first_line(e, 300)), Res::Panic(m, l) => format!("PANIC {} @ {}", first_line(m, 200), l) });
+                }
+            }
+            libmathcat::verif_hooks::install(None);
+        })
+        .expect("spawn");
+    let _ = h.join();
+    0
 }
